@@ -64,6 +64,11 @@ pub fn families(a: &Args, rng: &mut Rng) -> Vec<Fam> {
     for t in adjacent_range_family(&pool) {
         v.push(Fam { t, fam: "adjacent-ranges" });
     }
+    for (i, t) in same_language_family(&pool).into_iter().enumerate() {
+        if a.thorough() || i % 2 == (a.seed as usize) % 2 {
+            v.push(Fam { t, fam: "same-language" });
+        }
+    }
     for t in many_classes_family() {
         v.push(Fam { t, fam: "many-classes" });
     }
